@@ -92,6 +92,8 @@ impl PkeSealingVersion for V1 {
         let c = rsa_encrypt(&sealing_key.0, &BigUint::from_bytes_be(&r))
             .map_err(|_| PasetoError::CryptoError)?
             .to_bytes_be();
+        // c is a fixed-width 512-byte big-endian integer: restore stripped leading zeros
+        let c = [vec![0u8; 512 - c.len()], c].concat();
 
         let k = sha2::Sha384::digest(&c);
 
